@@ -83,7 +83,7 @@ def init (f : Bits → Nat) (p : DataHeader) : DataHeader :=
     { p with crc := natToBits 16 (f ((enc p).take ((enc p).length - 16))) }
   else p
 
-/-- `from_bits` (the code has no length check: shorter inputs are outside the property's domain and
+/-- `from_bits` = `fields_from_bits` (+ a `crc_ok` verdict, C04) (the code has no length check: shorter inputs are outside the property's domain and
 answered with `other`) -/
 def dec (f : Bits → Nat) (bs : Bits) : Except Err DataHeader :=
   if bs.length < 96 then .error .other else
